@@ -788,6 +788,79 @@ fn convert(input: &Secs, required: Option<&BTreeSet<usize>>) -> Conv {
     }
 }
 
+/// a one-unit section with only a root DIE: the skeleton unit of the split-DWARF path
+fn skeleton(enc: Encoding) -> Option<Secs> {
+    let mut dwarf = write::Dwarf::new();
+    let uid = dwarf.units.add(write::Unit::new(enc, write::LineProgram::none()));
+    let unit = dwarf.units.get_mut(uid);
+    let root = unit.root();
+    unit.get_mut(root).set(c::DW_AT_name, AttributeValue::String(b"skel".to_vec()));
+    let mut sections = Sections::new(write::EndianVec::new(LittleEndian));
+    dwarf.write(&mut sections).ok()?;
+    Some(Secs::from(&sections))
+}
+
+/// split DWARF: the forest is the split unit of a skeleton; `FilterUnitSection::new_split` +
+/// `ConvertUnit::convert_split_with_filter` (filtered) or `convert_split` (unfiltered).
+/// `probe` only walks `read_entry` and returns the reserved ids.
+fn convert_split(input: &Secs, skel: &Secs, required: Option<&BTreeSet<usize>>, probe: Option<&mut BTreeSet<usize>>) -> Conv {
+    let d_skel = skel.dwarf();
+    let d_split = input.dwarf();
+    let mut out = write::Dwarf::new();
+    let addr = |a: u64| Some(Address::Constant(a));
+    let mut probe = probe;
+    let res: Result<(), Conv> = (|| {
+        let mut convert = out.convert(&d_skel).map_err(|e| Conv::ConvErr(cerr(&e)))?;
+        while let Some((mut unit, _root)) = convert.read_unit().map_err(|e| Conv::ConvErr(cerr(&e)))? {
+            match required {
+                None => {
+                    let mut cs = unit.convert_split(&d_split).map_err(|e| Conv::ConvErr(cerr(&e)))?;
+                    let (mut su, sroot) = cs.read_unit().map_err(|e| Conv::ConvErr(cerr(&e)))?;
+                    su.convert(sroot, &addr).map_err(|e| Conv::ConvErr(cerr(&e)))?;
+                }
+                Some(req) => {
+                    let mut filter = write::FilterUnitSection::new_split(&d_split, unit.read_unit).map_err(|e| Conv::FilterErr(cerr(&e)))?;
+                    while let Some(mut fu) = filter.read_unit().map_err(|e| Conv::FilterErr(cerr(&e)))? {
+                        let mut entry = fu.null_entry();
+                        while fu.read_entry(&mut entry).map_err(|e| Conv::FilterErr(cerr(&e)))? {
+                            let id = name_id(entry.attr_value(c::DW_AT_name)).and_then(|n| n.strip_prefix('e').and_then(|x| x.parse::<usize>().ok()));
+                            if id.map_or(false, |i| req.contains(&i)) {
+                                fu.require_entry(entry.offset);
+                            }
+                        }
+                    }
+                    let mut cs = unit.convert_split_with_filter(filter).map_err(|e| Conv::ConvErr(cerr(&e)))?;
+                    let (mut su, sroot) = cs.read_unit().map_err(|e| Conv::ConvErr(cerr(&e)))?;
+                    if let Some(k) = probe.as_deref_mut() {
+                        let mut entry = sroot;
+                        while let Some(id) = su.read_entry(&mut entry).map_err(|e| Conv::ConvErr(cerr(&e)))? {
+                            if id.is_some() {
+                                if let Some(i) = name_id(entry.attr_value(c::DW_AT_name)).and_then(|n| n.strip_prefix('e').and_then(|x| x.parse::<usize>().ok())) {
+                                    k.insert(i);
+                                }
+                            }
+                        }
+                    } else {
+                        su.convert(sroot, &addr).map_err(|e| Conv::ConvErr(cerr(&e)))?;
+                    }
+                }
+            }
+        }
+        Ok(())
+    })();
+    if let Err(c) = res {
+        return c;
+    }
+    if probe.is_some() {
+        return Conv::ConvErr("probe".into());
+    }
+    let mut sections = Sections::new(write::EndianVec::new(LittleEndian));
+    match out.write(&mut sections) {
+        Ok(()) => Conv::Ok(Secs::from(&sections)),
+        Err(e) => Conv::WriteErr(werr(&e)),
+    }
+}
+
 /// the set of entries the filter reserved, observed through `ConvertUnit::read_entry` (it returns
 /// `Some(id)` exactly for reserved entries) — available even when the conversion itself fails
 fn probe_reserved(input: &Secs, req: &BTreeSet<usize>) -> Option<BTreeSet<usize>> {
@@ -1009,16 +1082,23 @@ fn oracle(f: &Forest, filtered: &Conv, unfiltered: &Conv, fo: Option<&OutDwarf>,
 // ---------------------------------------------------------------- handler
 
 pub fn handle(op: &str, a: &[&str]) -> Option<String> {
-    if op != "flt-conv" {
+    if op != "flt-conv" && op != "flt-split" {
         return None;
     }
+    let split = op == "flt-split";
     let f = parse(a)?;
+    if split && f.nunits != 1 {
+        return None;
+    }
     let input = match build_input(&f) {
         Ok(s) => s,
         Err(e) => return Some(format!("unsupported {e}")),
     };
-    let filtered = convert(&input, Some(&f.required));
-    let unfiltered = convert(&input, None);
+    let skel = if split { Some(skeleton(f.enc)?) } else { None };
+    let (filtered, unfiltered) = match &skel {
+        Some(sk) => (convert_split(&input, sk, Some(&f.required), None), convert_split(&input, sk, None, None)),
+        None => (convert(&input, Some(&f.required)), convert(&input, None)),
+    };
     let fo = if let Conv::Ok(s) = &filtered { Some(read_out(s)) } else { None };
     let uo = if let Conv::Ok(s) = &unfiltered { read_out(s).ok() } else { None };
     let reply = match (&filtered, &fo) {
@@ -1044,7 +1124,18 @@ pub fn handle(op: &str, a: &[&str]) -> Option<String> {
         _ => "err ?".into(),
     };
     let fo_ok = fo.as_ref().and_then(|r| r.as_ref().ok());
-    let kept = if matches!(filtered, Conv::ConvErr(_)) { probe_reserved(&input, &f.required) } else { None };
+    let kept = if matches!(filtered, Conv::ConvErr(_)) {
+        match &skel {
+            Some(sk) => {
+                let mut k = BTreeSet::new();
+                let _ = convert_split(&input, sk, Some(&f.required), Some(&mut k));
+                Some(k)
+            }
+            None => probe_reserved(&input, &f.required),
+        }
+    } else {
+        None
+    };
     let o = match (&filtered, &fo) {
         (Conv::Ok(_), Some(Err(e))) => Some(format!("readback-fails {e}")),
         _ => oracle(&f, &filtered, &unfiltered, fo_ok, uo.as_ref(), kept.as_ref()),
@@ -1277,7 +1368,7 @@ pub fn gen(ctx: &Ctx, emit: &mut dyn FnMut(String)) {
         }
     }
     // 2. small forests x every subset of required entries (exhaustive)
-    let nsmall = ctx.n(120, 1500);
+    let nsmall = ctx.n(400, 3000);
     for i in 0..nsmall {
         let n = rng.range(2, if ctx.tier == Tier::Quick { 6 } else { 8 }) as usize;
         let nunits = rng.range(1, 3) as usize;
@@ -1290,11 +1381,17 @@ pub fn gen(ctx: &Ctx, emit: &mut dyn FnMut(String)) {
         let enc = rand_enc(&mut rng);
         for m in 0u32..(1 << es.len()) {
             let req: Vec<usize> = (0..es.len()).filter(|b| m >> b & 1 == 1).collect();
-            emit(forest_line(enc, nunits, &es, &req));
+            let l = forest_line(enc, nunits, &es, &req);
+            // split-unit filters: the same single-unit forests through new_split / convert_split_with_filter
+            if nunits == 1 && i % 3 == 0 {
+                emit(l.replacen("flt-conv", "flt-split", 1));
+            } else {
+                emit(l);
+            }
         }
     }
     // 3. larger random forests x random subsets x versions x formats
-    let nbig = ctx.n(1500, 60000);
+    let nbig = ctx.n(6000, 100000);
     for i in 0..nbig {
         let n = rng.range(4, 40) as usize;
         let nunits = rng.range(1, 5) as usize;
@@ -1308,7 +1405,12 @@ pub fn gen(ctx: &Ctx, emit: &mut dyn FnMut(String)) {
             let enc = rand_enc(&mut rng);
             let dens = rng.range(1, 6);
             let req: Vec<usize> = (0..es.len()).filter(|_| rng.chance(1, dens + 1)).collect();
-            emit(forest_line(enc, nunits, &es, &req));
+            let l = forest_line(enc, nunits, &es, &req);
+            if nunits == 1 && i % 2 == 0 {
+                emit(l.replacen("flt-conv", "flt-split", 1));
+            } else {
+                emit(l);
+            }
         }
     }
     // empty cases
